@@ -73,6 +73,17 @@ static thread_local int t_slots[8];
 int& H::slot(int i) { return t_slots[i & 7]; }
 void H::nested(int, int) { H::emit("! nested-not-supported"); }
 
+struct HTracer : trompeloeil::tracer
+{
+  explicit HTracer(int id_) : id(id_) {}
+  void trace(char const* file, unsigned long line, std::string const& call) override
+  {
+    H::emit("T %d %s %lu %s", id, H::esc(file ? file : "<null>").c_str(), line, H::esc(call).c_str());
+  }
+  int id;
+};
+static std::vector<HTracer*> g_tracers;
+
 struct Rep
 {
   void operator()(trompeloeil::severity s, char const* file, unsigned long line, std::string const& msg) const
@@ -203,6 +214,8 @@ static void exec(Op& op, int idx)
     g_objs[op.a[0]] = Obj{};
     delete o.m; delete o.n; delete o.wm; delete o.wp;
   }
+  else if (k == "tr") { g_tracers.push_back(new HTracer(op.a[0])); }
+  else if (k == "rmtr") { if (!g_tracers.empty()) { delete g_tracers.back(); g_tracers.pop_back(); } }
   else if (k == "seq") { g_seqs[op.a[0]] = std::make_unique<trompeloeil::sequence>(); }
   else if (k == "rmseq") { g_seqs[op.a[0]].reset(); }
   else H::emit("! bad-op %s", k.c_str());
